@@ -278,7 +278,7 @@ def check(prop, tier):
             per = -(-n // shards)
             timeout = u.get("timeout_" + tier, 900 if tier == "quick" else 7200)
             for i in range(shards):
-                env = dict(GOENV, VERIF_OUT=outdir, VERIF_TMP=os.path.join(workdir, "tmp", "%s-%d" % (u["test"], i)))
+                env = dict(GOENV, VERIF_OUT=outdir, VERIF_TMP=os.path.join(workdir, "tmp", "%s-%d" % (u["test"], i)), VERIF_ROOT=ROOT)
                 if u.get("race"):
                     env["GORACE"] = "halt_on_error=1"
                 cmd = [binary(u["pkg"], u.get("race", False)), "-test.run", "^" + u["test"] + "$", "-test.count=1", "-test.v",
